@@ -27,6 +27,7 @@ type Exp struct {
 	Str   string
 	Items []Exp
 	KVs   []KV
+	FBits int // for values logged through a float method: the width logged (32 / 64); 0 otherwise
 }
 
 // KV is an expected field. Opt: the field may be absent (behaviour the statements leave open).
@@ -204,6 +205,12 @@ func intText(v interface{}) (string, bool) {
 
 // FloatExp renders a float the way encoding/json does (precision -1) or with a fixed precision.
 func FloatExp(v float64, bits int) Exp {
+	e := floatExp(v, bits)
+	e.FBits = bits
+	return e
+}
+
+func floatExp(v float64, bits int) Exp {
 	switch {
 	case math.IsNaN(v):
 		return S("NaN")
